@@ -449,6 +449,21 @@ class C12(L1Prop):
                 for margin in (-3600, 3600):
                     ops += ["as 1 latest:1 b:8", f"backdate 1 {age * 86400 + margin}", "setcounter 1 0", "dump 1", "av 1 latest:1 b:4", "dump 1"]
             out.append(Case(f"c12-grid-{k}", ops, {"cfg": [d, v]})); k += 1
+        # the same through the HTTP entry point: the targets given to WebServer::new must be the ones
+        # the urgency is computed from (0 and 1 included)
+        hgrid = [(0, 0), (0, 100), (14, 0), (1, 1), (14, 100), (0, 1), (1, 0), (2, 3)]
+        if tier == "thorough":
+            hgrid += [(d, v) for d in (0, 1, 2, 14, 2 ** 31) for v in (0, 1, 2, 100, 2000000000, U32MAX)]
+        for (d, v) in hgrid:
+            ops = [f"cfg {d} {v}", "http POST av hyph=nil hyph=1 history b:1", "http POST av hyph=latest:1 hyph=1 history b:2",
+                   "http POST as hyph=latest:1 hyph=1 snapshot b:9"]
+            for cnt in sorted(set(x for x in [0, v - 1, v, (3 * v) // 2 - 1, (3 * v) // 2] if 0 <= x <= U32MAX - 1)):
+                ops += [f"setcounter 1 {cnt}", "dump 1", "http POST av hyph=latest:1 hyph=1 history b:3", "dump 1"]
+            ops += ["setcounter 1 0"]
+            for age in sorted(set(x for x in [0, d - 1, d, (3 * d) // 2 - 1, (3 * d) // 2] if 0 <= x <= 200000)):
+                ops += ["http POST as hyph=latest:1 hyph=1 snapshot b:8", f"backdate 1 {age * 86400 + 3600}", "setcounter 1 0",
+                        "dump 1", "http POST av hyph=latest:1 hyph=1 history b:4", "dump 1"]
+            out.append(Case(f"c12-http-{k}", ops, {"cfg": [d, v], "http": True}, mode="http")); k += 1
         # counters produced by real histories, default and small targets
         nh = sizes(tier, 30, 400)
         for j in range(nh):
@@ -470,6 +485,12 @@ class C12(L1Prop):
         return out
     def relevant(self, i, trace):
         o, ri, rm = trace[i]
+        if o.startswith("http "):
+            from .props_http import HOp, HResp
+            if HOp(o).route != "av":
+                return False
+            a, b = HResp(ri), HResp(rm)
+            return b.status == 200 and (a.status != 200 or a.xs != b.xs)
         op = Op(o)
         if op.kind == "av":
             if resp_kind(rm) == "added" and resp_kind(ri) == "added":
@@ -483,6 +504,8 @@ class C12(L1Prop):
         fails = []
         d, v = case.meta.get("cfg", [14, 100])
         count = {}
+        if case.meta.get("http"):
+            trace = http_as_lib(trace)
         for i, (o, ri, rm) in enumerate(trace):
             op = Op(o)
             if op.kind == "cfg":
